@@ -91,6 +91,8 @@ def main():
         },
         "engines": [
             {"name": "rapidcheck", "path": "harness/pbt/pbt.cpp", "serves_properties": sorted(CLAIMS), "kind_free_text": "property-based generation + integrated shrinking of FmmCase values; one /repo-independent translation unit"},
+            {"name": "libFuzzer", "path": "harness/model/bytes.hpp", "serves_properties": ["C01", "C02", "C06", "C07", "C09", "C10", "C15"], "kind_free_text": "coverage-guided fuzzing (clang++ -fsanitize=fuzzer,address,undefined) of the tree / target-source / periodic targets; structure-aware decode of the bytes into the same FmmCase, same semantic oracles inside the target; seed corpora under corpus/"},
+            {"name": "mock task runtimes", "path": "harness/runtimes", "serves_properties": ["C03", "C09", "C10", "C12", "C15", "C18", "C19", "C04", "C05"], "kind_free_text": "GOMP ABI / Specx API / StarPU API mocks that record the submitted tasks and declared dependencies and execute a generated linear extension with generated worker ids"},
             {"name": "driver", "path": "check", "serves_properties": sorted(CLAIMS), "kind_free_text": "python3: rebuilds the needed binaries from /repo's working tree (hash keyed), fans campaigns out over 16 processes, shrinks crashes in fork-isolated mode, replays failures 3x, writes evidence"},
         ],
         "checks": checks,
